@@ -3,6 +3,7 @@
 From Coq Require Import ZArith QArith List Bool.
 Require Import DS.Model.Value DS.Gen.GenPrune DS.Model.Prune DS.Proofs.PruneProofs.
 Require Import DS.Model.BoundPrim DS.Gen.GenBound DS.Model.Bound DS.Proofs.BoundProofs.
+Require Import DS.Model.ManifestPrim DS.Gen.GenManifest13 DS.Model.Manifest13 DS.Proofs.Manifest13Proofs.
 Import ListNotations.
 Open Scope Z_scope.
 
@@ -41,6 +42,37 @@ Theorem C13_bound_roundtrip : forall v : value, boundable v = true -> dec (enc v
 Proof. exact bound_roundtrip. Qed.
 Print Assumptions C13_bound_roundtrip.
 
+(* The round trip at the level of a whole MANIFEST, over the record construction regenerated from
+   create_manifest_file / read_manifest_file: any number of ADDED entries (the files of one, possibly
+   multi-append, transaction) and EXISTING entries (survivors of a partial delete), each with any
+   number of columns and any bounds -- in particular bounds of different columns / files that are
+   equal as Python values but of different types (1, 1.0, True).  Every DataFile comes back in its
+   place with its own bounds, value and type intact; the only change is {} -> None. *)
+Theorem C13_manifest_roundtrip : forall (added existing : list dfb),
+  (forall d, In d (added ++ existing) -> boundable_df d) ->
+  via_manifest added existing = map norm_df (added ++ existing).
+Proof. exact via_manifest_roundtrip. Qed.
+Print Assumptions C13_manifest_roundtrip.
+
+(* A file listed in a manifest is skipped -- on the bounds READ BACK from that manifest -- only when
+   no row in it can satisfy the predicate. *)
+Theorem C13_prune_sound_via_manifest : forall (X : value -> value -> bool) (schema : list (Z * Z)) (es : list fexpr)
+    (added existing : list (list row)) (rows : list row) (lo hi : bmap),
+  NoDup (map snd schema) -> (forall f, In f (added ++ existing) -> wf_file schema f) ->
+  In (rows, (lo, hi)) (combine (added ++ existing) (manifest_bounds schema added existing)) ->
+  file_may_match lo hi schema es = false ->
+  forall r, In r rows -> row_selected X es r = false.
+Proof. exact prune_sound_via_manifest. Qed.
+Print Assumptions C13_prune_sound_via_manifest.
+
+(* The result with pruning on the manifest's bounds equals the result when every file is read. *)
+Theorem C13_scan_equal_via_manifest : forall (X : value -> value -> bool) (schema : list (Z * Z)) (es : list fexpr)
+    (added existing : list (list row)),
+  NoDup (map snd schema) -> (forall f, In f (added ++ existing) -> wf_file schema f) ->
+  scan X es (prune_via_manifest schema es added existing) = scan X es (added ++ existing).
+Proof. exact scan_via_manifest_equal. Qed.
+Print Assumptions C13_scan_equal_via_manifest.
+
 (* Non-vacuity: a concrete two-column file {x: 5.0, NaN, NULL; s: "a","b","c"} meets the hypotheses,
    is pruned for x > 7, for s < "a" and for s IN ["d";"e"], and is NOT pruned for x != 5.0 nor for
    x IN [NaN] nor x IN [6;7] (float bounds never prune IN). *)
@@ -70,5 +102,36 @@ Proof.
     + intuition (subst; reflexivity).
     + destruct (Z.eqb_spec c 0); [contradiction|]. destruct (Z.eqb_spec c 1); [contradiction|].
       intuition (subst; reflexivity).
+  - vm_compute. repeat split.
+Qed.
+
+(* Non-vacuity of the manifest theorems: one manifest whose entries carry bounds that are EQUAL as Python
+   values but differently typed -- file A: id (long) 1..1, score (double) 1.0..1.0, flag (boolean)
+   True..True; file B (an EXISTING entry): id 0..1, score NaN..NaN, flag False..True, and a file without
+   bounds.  They come back unchanged, and the types matter to the planner: `score != 1.0` keeps file A
+   (a float bound never proves the inequality empty, NaN rows are skipped by bounds) whereas the same
+   bound typed as the integer 1 would skip it; `flag in [2]` keeps file B, int-typed bounds 0..1 would
+   skip it. *)
+Definition ex_dfA : dfb := {| df_lower := Some [(1, VInt 1); (2, VFlt (Fin (1 # 1))); (3, VBool true)];
+                             df_upper := Some [(1, VInt 1); (2, VFlt (Fin (1 # 1))); (3, VBool true)] |}.
+Definition ex_dfB : dfb := {| df_lower := Some [(1, VInt 0); (2, VFlt NaN); (3, VBool false)];
+                             df_upper := Some [(1, VInt 1); (2, VFlt NaN); (3, VBool true)] |}.
+Definition ex_dfC : dfb := {| df_lower := None; df_upper := Some [] |}.
+Definition ex_ids : list (Z * Z) := [(0, 1); (1, 2); (2, 3)].
+Definition ex_ne : fexpr := {| fcol := 1; fop_ := NE; fsval := VFlt (Fin (1 # 1)); flval := [] |}.
+Definition ex_in : fexpr := {| fcol := 2; fop_ := IN; fsval := VNull; flval := [VInt 2] |}.
+
+Example C13_manifest_nonvacuous :
+  (forall d, In d ([ex_dfA] ++ [ex_dfB; ex_dfC]) -> boundable_df d)
+  /\ via_manifest [ex_dfA] [ex_dfB; ex_dfC] = [ex_dfA; ex_dfB; {| df_lower := None; df_upper := None |}]
+  /\ map r_status (write_manifest [ex_dfA] [ex_dfB; ex_dfC]) = [1; 0; 0]
+  /\ file_may_match (fst (df_view ex_dfA)) (snd (df_view ex_dfA)) ex_ids [ex_ne] = true
+  /\ file_may_match [(2, VInt 1)] [(2, VInt 1)] ex_ids [ex_ne] = false
+  /\ file_may_match (fst (df_view ex_dfB)) (snd (df_view ex_dfB)) ex_ids [ex_in] = true
+  /\ file_may_match [(3, VInt 0)] [(3, VInt 1)] ex_ids [ex_in] = false.
+Proof.
+  split.
+  - intros d [<-|[<-|[<-|[]]]]; split; intros k v I; cbn in I;
+      repeat (destruct I as [I|I]; [inversion I; subst; reflexivity|]); destruct I.
   - vm_compute. repeat split.
 Qed.
